@@ -2,6 +2,7 @@ import PyPhysim.Proofs.C11Sinr
 import PyPhysim.Proofs.C11Q
 import PyPhysim.Proofs.C11Agg
 import PyPhysim.Proofs.C11Views
+import PyPhysim.Proofs.C11Close
 
 /-!
 # C11 — reported SINRs equal first-principles signal over interference-plus-noise
@@ -520,6 +521,76 @@ theorem sinr_power_scale_invariant (G : (j : Fin K) → Mat ℂ n (T j)) (V : (j
     congr 2
     rw [hD, sigPow, sigPow, hs, mul_div_mul_left _ _ hg.ne']
 
+/-! ### R15 distinct values that are merely close; R16 argument identity and buffers refilled in place -/
+
+/-- **R15 a value that is merely close is another value.**  The model compares nothing with a tolerance, rounds
+    no key and has no threshold other than "exactly zero": for a stream that is received at all (`sigPow ≠ 0`)
+    through a filter that is not zero,
+    * two noise variances `σ ≠ σ'` (however close: `4e-12` and `4e-13`, `2.4e9` and `2.4e9 + 2e4`, two adjacent
+      doubles) give two different reports — two different values, or a value and `ZeroDivisionError`;
+    * they give two different interference-plus-noise covariance matrices `calc_Q`;
+    * two external powers `pe ≠ pe'` give two different reports as soon as the external sources reach the
+      filter output at all.
+    An implementation that identifies such values (`np.isclose`, a rounded cache key, `> 1e-8`) therefore
+    disagrees with the model on one of them; the R15 sessions of `harness/props/c11.py` generate such pairs with
+    a margin of at least 30 comparison tolerances between the two first-principles reports. -/
+theorem close_values_are_not_identified (G : (j : Fin K) → Mat ℂ n (T j)) (V : (j : Fin K) → Mat ℂ (T j) (S j))
+    (k : Fin K) (Uk : Mat ℂ n (S k)) (He : Mat ℂ n e) (noise : Option ℝ) (σ σ' pe pe' : ℝ) (l : Fin (S k))
+    (hσ : 0 ≤ σ) (hσ' : 0 ≤ σ') (hpe : 0 ≤ pe) (hpe' : 0 ≤ pe') (hnoise : ∀ v, noise = some v → 0 ≤ v)
+    (hsig : sigPow G V (filt Uk l) k l ≠ 0) (hu : ∃ a, Uk a l ≠ 0) :
+    (σ ≠ σ' → (chSinr G V k Uk (baseRek n (some σ)) l : Except PyErr ℝ) ≠ chSinr G V k Uk (baseRek n (some σ')) l) ∧
+    (σ ≠ σ' → (chQ G V k (some σ) : Mat ℂ n n) ≠ chQ G V k (some σ')) ∧
+    (pe ≠ pe' → extPow He 1 (filt Uk l) ≠ 0 →
+      (chSinr G V k Uk (extRek He pe noise) l : Except PyErr ℝ) ≠ chSinr G V k Uk (extRek He pe' noise) l) := by
+  obtain ⟨a, _⟩ := hu
+  exact ⟨fun h => chSinr_noise_injective G V k Uk σ σ' l hσ hσ' h hsig ⟨a, ‹_›⟩,
+    fun h => chQ_noise_injective G V k σ σ' (Fin.pos a) h,
+    fun h hext => chSinr_pe_injective G V k Uk He noise pe pe' l hpe hpe' hnoise h hsig hext⟩
+
+/-- **R15 a setter takes effect for EVERY new value** — there is no "unchanged, skip" in the model.  Whatever
+    history the inputs of a receiver went through and whatever value `noise_var` had before (equal to `v`, one
+    ulp away from it, or far away), after `noise_var = v` the inputs hold exactly `v`, everything else is
+    where it was, and `calc_SINR` is the report of a fresh object given the current channel, precoders, filters
+    and exactly `v`.  The same holds for any setter that stores what it is given (`set`/`get` with
+    `get (set v i) = v`: path loss, precoders, powers, filters). -/
+theorem setter_takes_effect_for_every_new_value (k : Fin K) (l : Fin (S k)) (i0 : RxInputs K n T S k)
+    (hist : List (RxInputs K n T S k → RxInputs K n T S k)) (v : Option ℝ)
+    {ι ν : Type} (set : ν → ι → ι) (get : ι → ν) (hget : ∀ w i, get (set w i) = w) (j0 : ι) (h : List (ι → ι))
+    (w : ν) :
+    (afterHistory i0 (hist ++ [fun i => { i with noise := v }])).noise = v ∧
+    (afterHistory i0 (hist ++ [fun i => { i with noise := v }])).G = (afterHistory i0 hist).G ∧
+    (afterHistory i0 (hist ++ [fun i => { i with noise := v }])).V = (afterHistory i0 hist).V ∧
+    (afterHistory i0 (hist ++ [fun i => { i with noise := v }])).Uk = (afterHistory i0 hist).Uk ∧
+    reportAfter (fun i : RxInputs K n T S k => (chSinr i.G i.V k i.Uk (baseRek n i.noise) l : Except PyErr ℝ))
+        i0 (hist ++ [fun i => { i with noise := v }]) =
+      chSinr (afterHistory i0 hist).G (afterHistory i0 hist).V k (afterHistory i0 hist).Uk (baseRek n v) l ∧
+    get (afterHistory j0 (h ++ [set w])) = w := by
+  simp only [afterHistory, reportAfter, List.foldl_append, List.foldl_cons, List.foldl_nil, hget, and_self]
+
+/-- **R16 results depend on the contents at call time, not on the identity of the objects.**  For a caller that
+    keeps ONE buffer (address `a` of its memory `h`) and refills it in place before every call:
+    * the `i`-th call returns what a call on a fresh copy of the `i`-th contents returns (`vs.map report`),
+      whatever the buffer held before and however often it was used;
+    * what earlier calls returned is not altered by later refills (the results of the longer loop start with
+      those of the shorter one);
+    * an object with equal contents at another address gives the same result; refilling ANOTHER object changes
+      nothing;
+    * one object in two roles (`calc_SINR(X, X)`, `Nr` and `Nt`, path loss and external path loss) is read as
+      two arguments with equal contents.
+    This is what the buffer sessions and the role scenarios of `harness/props/c11.py` hold the implementation to. -/
+theorem results_depend_on_contents_at_call_time {ι β : Type} (report : ι → β) (report2 : ι → ι → β)
+    (h h' : Heap ι) (a b : Nat) (vs ws : List ι) (v : ι) :
+    refillLoop report a h vs = vs.map report ∧
+    (refillLoop report a h (vs ++ ws)).take vs.length = refillLoop report a h vs ∧
+    (h a = h' b → callOn report h a = callOn report h' b) ∧
+    (b ≠ a → callOn report (refill h b v) a = callOn report h a) ∧
+    callOn report (refill h a v) a = report v ∧
+    callOn2 report2 h a a = report2 (h a) (h a) := by
+  refine ⟨refillLoop_eq_map report a h vs, ?_, fun hab => by simp only [callOn, hab], fun hne => ?_, ?_, rfl⟩
+  · rw [refillLoop_eq_map, refillLoop_eq_map, List.map_append, List.take_left' (by simp)]
+  · simp only [callOn, refill_other h b a v (Ne.symm hne)]
+  · simp only [callOn, refill_self]
+
 /-! ### the hypotheses are satisfiable (non-vacuity) -/
 
 /-- a two-user scenario with one antenna everywhere, unit channel/precoders/filters and
@@ -541,5 +612,17 @@ example :
     (by rw [hf, hi, hn]; norm_num)]
   rw [hf, hi, hn, sigPow, hs]
   norm_num
+
+/-- `close_values_are_not_identified` is not vacuous: in the scenario above the noise variances `1` and
+    `1 + 10⁻⁹` (which `np.isclose` identifies) are reported on differently. -/
+example :
+    (chSinr (K := 2) (n := 1) (T := fun _ => 1) (S := fun _ => 1) (fun _ _ _ => (1 : ℂ)) (fun _ _ _ => 1) 0
+      (fun _ _ => 1) (baseRek 1 (some (1 : ℝ))) 0 : Except PyErr ℝ) ≠
+    chSinr (K := 2) (n := 1) (T := fun _ => 1) (S := fun _ => 1) (fun _ _ _ => (1 : ℂ)) (fun _ _ _ => 1) 0
+      (fun _ _ => 1) (baseRek 1 (some (1 + 1 / 10 ^ 9 : ℝ))) 0 := by
+  refine (close_values_are_not_identified (K := 2) (n := 1) (e := 0) (T := fun _ => 1) (S := fun _ => 1)
+    (fun _ _ _ => (1 : ℂ)) (fun _ _ _ => 1) 0 (fun _ _ => 1) (fun _ i => i.elim0) none 1 (1 + 1 / 10 ^ 9) 0 0 0
+    zero_le_one (by positivity) le_rfl le_rfl (fun _ h => by cases h) ?_ ⟨0, one_ne_zero⟩).1 (by norm_num)
+  simp [sigPow, streamPow, amp, filt]
 
 end PyPhysim.C11
